@@ -33,7 +33,13 @@ func (r *RuleEntity) AcceptInteger(val int64) error {
 }
 
 
-func (r *RuleEntity) Execute(dc *context.DataContext) (interface{}, error, bool) {
+func (r *RuleEntity) Execute(dc *context.DataContext) (rv interface{}, re error, rb bool) {
+	// a panic inside the rule (non-boolean condition, nil receiver, ...) is the rule's error
+	defer func() {
+		if p := recover(); p != nil {
+			rv, re, rb = nil, errors.New(fmt.Sprintf("rule \"%s\" panic: %+v", r.RuleName, p)), false
+		}
+	}()
 	v, e, b := r.RuleContent.Execute(dc, make(map[string]reflect.Value))
 	if v == reflect.ValueOf(nil) {
 		return nil, e, b
